@@ -755,6 +755,13 @@ func planFor(prop, tier string) (*plan, error) {
 			p.F.ResultName = nm
 			ps = append(ps, p)
 		}
+		{
+			f := exprConc(pg.Shape("chain2"))
+			f.Types[2] = pg.SpTime
+			p := flowProg(f, "S:resultname=startTime/time")
+			p.F.ResultName = "startTime"
+			ps = append(ps, p)
+		}
 		// concurrency spelled as a constant, and absent (default worker count)
 		for _, c := range []string{"1", "2", ""} {
 			f := pg.Shape("fork")
@@ -1118,6 +1125,17 @@ func planFor(prop, tier string) (*plan, error) {
 		}
 		for _, f := range pg.WithPredFallback(pg.Shape("chain2"), []string{"nonectx"}, 1) {
 			ps = append(ps, flowProg(exprConc(f), "PF:ctx"))
+		}
+		// a fallback value passed as an identifier that has the name and the type of a local of the generated task closure
+		for _, f := range pg.WithPredFallback(pg.Shape("chain2"), nil, 2) {
+			if !f.Tasks[1].Fallback {
+				continue
+			}
+			g := exprConc(f)
+			g.Types[2] = pg.SpTime
+			p := flowProg(g, "PF:ident-startTime")
+			p.F.IdentArg, p.F.IdentPos = "startTime", -1
+			ps = append(ps, p)
 		}
 		// a task without results (Invoke) with the value-less FallbackWith(), with and without a predicate
 		for _, f := range pg.WithPredFallback(pg.Shape("invoke"), []string{"none", "shared"}, 2) {
